@@ -225,9 +225,10 @@ def hyperu(ctx, a, b, z, **kwargs):
         try:
             ctx.prec += 10
             v = ctx.hypsum(2, 0, (atype, bbtype), [a, bb], -1/z, maxterms=ctx.prec)
-            return v / z**a
+            v = v / z**a
         finally:
             ctx.prec = orig
+        return +v
     except ctx.NoConvergence:
         pass
     def h(a,b):
@@ -641,11 +642,11 @@ def _airy_zero(ctx, which, k, derivative, complex=False):
 
 @defun
 def airyaizero(ctx, k, derivative=0):
-    return _airy_zero(ctx, 0, k, derivative, False)
+    return +_airy_zero(ctx, 0, k, derivative, False)
 
 @defun
 def airybizero(ctx, k, derivative=0, complex=False):
-    return _airy_zero(ctx, 1, k, derivative, complex)
+    return +_airy_zero(ctx, 1, k, derivative, complex)
 
 def _scorer(ctx, z, which, kwargs):
     z = ctx.convert(z)
